@@ -92,6 +92,9 @@ static void closed_call_check(int i, const char *what, int failed, PError *err) 
 	if (m->decoy >= 0 && fcntl(m->decoy, F_GETFD) < 0) viol("closed-touched-descriptor", "%s on a closed socket closed an unrelated descriptor that reuses the old number", what);
 }
 #define RESET_T() do { w_t_fdcalls = 0; w_t_polls = 0; w_t_calls = 0; } while (0)
+static long long st_timed_eintr;
+/* a timed wait interrupted by a signal must still not end before T: inject EINTR into the first poll() of some timed calls */
+static void maybe_interrupt_poll(MS *m, vh_rng *r) { if (m->blocking && m->timeout > 0 && vh_chance(r, 35)) { w_plan(W_POLL, WM_AT, w_calls(W_POLL) + 1, 1 + (int)vh_below(r, 2), WK_EINTR, vh_next(r)); st_timed_eintr++; } }
 
 static int force_op = -1; static int paired;
 static void do_op(int i, vh_rng *r) {
@@ -152,7 +155,8 @@ static void do_op(int i, vh_rng *r) {
 		if (!m->listening || m->shut) { st_skipped++; break; }
 		if (m->pending == 0) {
 			if (m->blocking && m->timeout == 0) { st_skipped++; break; }     /* would wait forever */
-			RESET_T(); t0 = vh_now_ns(); ac = p_socket_accept(s, &err); el = (double)(vh_now_ns() - t0) / 1e6;
+			maybe_interrupt_poll(m, r);
+			RESET_T(); t0 = vh_now_ns(); ac = p_socket_accept(s, &err); el = (double)(vh_now_ns() - t0) / 1e6; w_plan(W_POLL, WM_OFF, 0, 1, 0, 0);
 			expect_cannot_proceed(i, "accept", ac != NULL, err, el); p_socket_free(ac); check_getters(i, cur); break;
 		}
 		for (j = 0; j < MAXS; j++) if (!w[j].used) { k = j; break; }
@@ -191,7 +195,8 @@ static void do_op(int i, vh_rng *r) {
 			else { if (memcmp(buf, "01234567890123456789012345678901234567890123456789012345678901234", (size_t)n)) viol("receive-wrong-data", "received bytes differ"); m->inflight -= n; }
 		} else {
 			if (m->blocking && m->timeout == 0) { st_skipped++; break; }
-			RESET_T(); t0 = vh_now_ns(); n = from ? p_socket_receive_from(s, &fa, buf, sizeof buf, &err) : p_socket_receive(s, buf, sizeof buf, &err); el = (double)(vh_now_ns() - t0) / 1e6;
+			maybe_interrupt_poll(m, r);
+			RESET_T(); t0 = vh_now_ns(); n = from ? p_socket_receive_from(s, &fa, buf, sizeof buf, &err) : p_socket_receive(s, buf, sizeof buf, &err); el = (double)(vh_now_ns() - t0) / 1e6; w_plan(W_POLL, WM_OFF, 0, 1, 0, 0);
 			expect_cannot_proceed(i, from ? "receive_from" : "receive", n >= 0, err, el);
 		}
 		p_socket_address_free(fa); check_getters(i, cur); break; }
@@ -358,7 +363,7 @@ int main(int argc, char **argv) {
 	run_fixed(&r, fixed);
 	if (!vh_flag(argc, argv, "--no-odd")) run_odd_states();
 	p_libsys_shutdown();
-	printf("{\"ev\":\"stats\",\"sequences\":%lld,\"calls\":%lld,\"distinct_states\":%zu,\"distinct_transitions\":%zu,\"timed_cases\":%lld,\"nonblocking_cases\":%lld,\"closed_socket_calls\":%lld,\"accepts\":%lld,\"connects\":%lld,"
-	       "\"untimed_blocking\":%lld,\"odd_state_probes\":%lld,\"cloexec_checked\":%lld,\"skipped\":%lld,\"viol\":%d,\"wall\":%.2f}\n", st_seq, st_calls, scnt, tcnt, st_timed, st_nonblock, st_closed_calls, st_accepts, st_connects, st_untimed, st_odd, st_cloexec_checked, st_skipped, vh_nviol, vh_now() - t0);
+	printf("{\"ev\":\"stats\",\"sequences\":%lld,\"calls\":%lld,\"distinct_states\":%zu,\"distinct_transitions\":%zu,\"timed_cases\":%lld,\"timed_cases_with_interrupted_poll\":%lld,\"nonblocking_cases\":%lld,\"closed_socket_calls\":%lld,\"accepts\":%lld,\"connects\":%lld,"
+	       "\"untimed_blocking\":%lld,\"odd_state_probes\":%lld,\"cloexec_checked\":%lld,\"skipped\":%lld,\"viol\":%d,\"wall\":%.2f}\n", st_seq, st_calls, scnt, tcnt, st_timed, st_timed_eintr, st_nonblock, st_closed_calls, st_accepts, st_connects, st_untimed, st_odd, st_cloexec_checked, st_skipped, vh_nviol, vh_now() - t0);
 	return 0;
 }
